@@ -120,7 +120,17 @@ impl<'a, 'b> Gen<'a, 'b> {
                 }
             }
         };
-        let name = Name::new(&format!("FN{}{}", ["A", "B", "C", "D", "E", "G"][k], suffix));
+        let mut base = ["A", "B", "C", "D", "E", "G"][k].to_string();
+        if k > 0 && suffix != "!" && self.t.chance(1, 3) {
+            // the same base name as an earlier function, told apart by the type character only
+            let e = self.fns[self.t.below(self.fns.len())].name.text().to_string();
+            let eb: String = e[2..].chars().filter(|c| c.is_ascii_alphanumeric()).collect();
+            let cand = format!("FN{}{}", eb, suffix);
+            if !e.ends_with('!') && !self.fns.iter().any(|f| f.name.text() == cand) {
+                base = eb;
+            }
+        }
+        let name = Name::new(&format!("FN{}{}", base, suffix));
         let np = 1 + self.t.below(4);
         let mut params: Vec<(Name, Ty)> = vec![];
         for _ in 0..np {
@@ -319,7 +329,11 @@ fn check_functions(t: &mut Tape, ctx: &Ctx) -> Outcome {
         vec![print_all(ALL_GLOBALS)],
         // functions stay defined after the run; DEF itself is illegal in direct mode
         vec![Stmt::Print(vec![PItem::Expr(E::Fn(Name::new("FNA"), vec![lit(2)]))])],
+        // a refused direct DEF of an existing name leaves the program's function in place
+        vec![Stmt::Def { name: Name::new("FNA"), params: vec![Name::new("X")], body: bin(Bin::Mul, v("X"), lit(100)) }],
+        vec![Stmt::Print(vec![PItem::Expr(E::Fn(Name::new("FNA"), vec![lit(2)]))])],
         vec![Stmt::Def { name: Name::new("FNQ"), params: vec![Name::new("X")], body: v("X") }],
+        vec![Stmt::Print(vec![PItem::Expr(E::Fn(Name::new("FNQ"), vec![lit(1)]))])],
         vec![Stmt::Print(vec![PItem::Expr(lit(1))])],
     ];
     let case = format!("{}\n{}", case0, directs.iter().map(|d| format!("> {}", render_stmts(d))).collect::<Vec<_>>().join("\n"));
@@ -336,7 +350,7 @@ fn check_functions(t: &mut Tape, ctx: &Ctx) -> Outcome {
     }
     for (i, d) in directs.iter().enumerate() {
         // FNA may have string parameters: skip the direct call then
-        if i == 2 {
+        if i == 2 || i == 4 {
             let ok = prog.lines.iter().any(|l| l.stmts.iter().any(|s| matches!(s, Stmt::Def { name, params, .. } if name.text() == "FNA" && params.len() == 1 && !params[0].text().ends_with('$'))));
             if !ok {
                 continue;
@@ -434,8 +448,8 @@ fn check_case(item: &str, _ctx: &Ctx) -> Outcome {
 pub fn property() -> Property {
     Property {
         id: "C10",
-        rule: "Cases: proptest-generated programs defining 1-6 functions (typed names FNA FNB% FNC# FND$ FNE!, 1-4 parameters of every type whose names shadow program variables, bodies over parameters, globals and earlier functions up to depth 6, a later DEF replacing an earlier one), DEFtype in effect for the letters of parameters and for the letter F; \
-calls inside PRINT lists, array subscripts, FOR bounds, IF conditions, other calls' arguments, WHILE loops; a global changed between two identical calls (evaluation at call time); the shadowed globals printed afterwards; error endings: wrong argument count, call before the DEF executed, undefined function, runaway recursion, DEF in direct mode, followed by more direct statements. \
+        rule: "Cases: proptest-generated programs defining 1-6 functions (typed names FNA FNB% FNC# FND$ FNE!, also names that differ in the type character only such as FNA and FNA$, 1-4 parameters of every type whose names shadow program variables, bodies over parameters, globals and earlier functions up to depth 6, a later DEF replacing an earlier one), DEFtype in effect for the letters of parameters and for the letter F; \
+calls inside PRINT lists, array subscripts, FOR bounds, IF conditions, other calls' arguments, WHILE loops; a global changed between two identical calls (evaluation at call time); the shadowed globals printed afterwards; error endings: wrong argument count, call before the DEF executed, undefined function, runaway recursion, DEF in direct mode (of a new name and of a name the program defines; the program's function must survive it), followed by more direct statements. \
 Oracle: reference interpreter (call by value, each argument converted like an assignment to its parameter's own type, locals shadow, everything else read at call time); whole transcripts compared. Literal cases pin the documented error codes and the zero-parameter diagnostic. \
 Non-trivial: a call nested in another call's argument, in a subscript or in a loop bound, or any executed call with shadowing parameters. Distinct by program text.",
         assumptions: vec!["bodies are wrapped in CINT/CSNG/CDBL so that the natural result type equals the type of the function name (result conversion is not documented)", "errors inside a function body may be attributed to the calling line or to the DEF line"],
